@@ -19,6 +19,13 @@ package accumulation
 //@ modifies *
 //@ assume driver-passes-nonnil-config (not (= (local conf) nil))
 //@ focus in-scope (callres "IsPkgInScope")
+//@ -- Export's precondition at its only call site: the inference engine leaves a well-formed map and well-formed
+//@ -- upstream snapshot. That is the joint postcondition of NewEngine, ObserveUpstream, ObserveAnnotations and
+//@ -- ObservePackage, whose whole-function contracts are not discharged yet: ASSUMED here (listed in the evidence).
+//@ -- (the antecedent only delays the assumption to the program point after Diagnostics, right before Export)
+//@ assume engine-leaves-well-formed-map (=> (>= (len (local diagnostics)) 0) (imOK (local inferredMap)))
+//@ assume engine-leaves-well-formed-upstream-snapshot (=> (>= (len (local diagnostics)) 0) (upOK (local inferredMap)))
+//@ assume driver-passes-nonnil-pass (=> (>= (len (local diagnostics)) 0) (and (not (= (local pass) nil)) (not (= (. (local pass) Pass) nil))))
 //@ ensures annotations-before-any-constraint (=> (> (calls "ObservePackage") 0)
 //@    (and (before "ObserveUpstream" "ObserveAnnotations") (before "ObserveAnnotations" "ObservePackage")
 //@         (before "ObservePackage" "Diagnostics") (before "ObservePackage" "Export")
